@@ -56,7 +56,7 @@ theorem capMem_refines (X : Ctx) (s : St) (es : List Elem) (x : VM Unit) (habs0 
   cases h with
   | same => exact .inl ⟨s, rfl, habs0⟩
   | stopped p s' hv hp _ => exact .inr ⟨p, s', rfl, hp, hv⟩
-  | grown s' habs _ _ => exact .inl ⟨s', rfl, habs⟩
+  | grown s' habs _ _ _ _ => exact .inl ⟨s', rfl, habs⟩
 
 /-- (`hq`: no user destructor panics — destructor panics are the subject of C04) -/
 theorem POp.refines (X : Ctx) (hq : ∀ k, X.o.panicAt k = false) (op : POp) (s : St) (es : List Elem) (h : Abs X s.v es) :
